@@ -60,7 +60,6 @@ func lookup(fns []pure.Fn, name string) *pure.Fn {
 	return nil
 }
 
-
 // scenarios enumerates: every unordered pair of functions on every shared input both accept,
 // and every function on every ordered pair of distinct inputs of the same family (hidden state
 // only shows when the two calls compute different things).
